@@ -119,11 +119,22 @@ func raceLocal(file string, timeout time.Duration, all bool, only []string) []So
 	}
 	go func() { wg.Wait(); close(ch) }()
 	var out []SolverAnswer
+	graceStarted := false
 	for a := range ch {
 		out = append(out, a)
-		if !all && (a.Status == "unsat" || a.Status == "sat") {
-			cancel()
-			break
+		if a.Status == "unsat" || a.Status == "sat" {
+			if !all {
+				cancel()
+				break
+			}
+			// thorough: the other solvers get a short grace period to agree or disagree
+			if !graceStarted {
+				graceStarted = true
+				go func() {
+					time.Sleep(4 * time.Second)
+					cancel()
+				}()
+			}
 		}
 	}
 	return out
